@@ -88,7 +88,8 @@ Drain(m, n) == IF n = 0 \/ m.p = 0 THEN <<>>
 
 (* a scripted walk over the iterator: w = sequence of "v" "a" "r"; the log   *)
 (* is what the harness records: 118, item | 97, answer | 114, answer          *)
-SeenItem(it) == IF it.t = 0 THEN <<0>> ELSE FlatItem(it)
+\* (an element delivered under the code 'l' has a type the harness -- like every consumer in the library -- cannot read)
+SeenItem(it) == IF it.t = 0 THEN <<0>> ELSE IF it.t = 108 THEN <<-1, 108>> ELSE FlatItem(it)
 RECURSIVE WalkLog(_, _, _)
 WalkLog(m, w, i) ==
   IF i > Len(w) THEN <<>>
@@ -99,7 +100,7 @@ WalkLog(m, w, i) ==
 RECURSIVE WalkPos(_, _, _, _)
 WalkPos(ds, g, w, i) ==
   IF i > Len(w) THEN <<>>
-  ELSE CASE w[i] = "v" -> <<118>> \o (IF g <= Len(ds) THEN FlatItem(ds[g]) ELSE <<0>>) \o WalkPos(ds, g, w, i + 1)
+  ELSE CASE w[i] = "v" -> <<118>> \o (IF g <= Len(ds) THEN SeenItem(ds[g]) ELSE <<0>>) \o WalkPos(ds, g, w, i + 1)
          [] w[i] = "a" -> IF g > Len(ds) THEN <<97, -1>> \o WalkPos(ds, g, w, i + 1)
                           ELSE <<97, IF g = Len(ds) THEN 0 ELSE ds[g + 1].t>> \o WalkPos(ds, g + 1, w, i + 1)
          [] w[i] = "r" -> <<114, Len(ds)>> \o WalkPos(ds, 1, w, i + 1)
@@ -244,8 +245,8 @@ VCopy(v, max, nosrc) ==
 
 ---------------------------------------------------------------------------
 (* alphabet *)
-Vals1 == {Num("i", 14), Num("d", 5), Str(<<114, 101, 100>>), Num("y", 8), Num("f", 3), Num("x", 200000), Num("i", -6)}
-         \cup (IF Lvl >= 2 THEN {Num("b", -4), Num("n", -600), Num("q", 120000), Num("u", 262140), Num("t", 20), Str(<<>>), Num("d", -3), Num("l", 6)} ELSE {})
+Vals1 == {Num("i", 14), Num("d", 5), Str(<<114, 101, 100>>), Num("y", 8), Num("f", 3), Num("x", 200000), Num("i", -6), Num("n", -600), Num("q", 120000)}
+         \cup (IF Lvl >= 2 THEN {Num("b", -4), Num("u", 262140), Num("t", 20), Str(<<>>), Num("d", -3), Num("l", 6)} ELSE {})
 ArgLists == {<<>>} \cup {<<a>> : a \in Vals1}
             \cup {<<a, b>> : a \in {Num("i", 14), Num("d", 5), Str(<<114, 101, 100>>)}, b \in {Num("i", 2), Num("d", 1), Str(<<104, 105>>), Num("x", 8)}}
             \cup {<<Num("i", 14), Num("d", 5), Num("i", 6)>>, <<Str(<<97>>), Num("d", 5), Str(<<98, 98>>)>>, <<Num("x", 2), Num("f", 1), Num("y", 6)>>}
